@@ -36,11 +36,14 @@ def jsonLines (t : Tree) (vis : Nat → String → Bool) (ks : List JKey) (docke
     | none => false
   let keep (k : JKey) (v : String) : Option String :=
     if omitEmpty k.key && v == "zero" && !structTyped k.name then none else some (tagName k.key ++ "=" ++ v)
-  let mline := sorted.filterMap (fun key =>
-    match ks.find? (fun k => tagName k.key = key) with
-    | some k => keep k (if k.exported || k.hasGet then
-        (match targetOf t vis k.name with | some (_, i, _) => s!"arg{i}" | none => "?") else "zero")
-    | none => some (key ++ "=?"))
+  -- the document of Marshal on the sentinel-filled value, through the model's `marshalO` (Spec/Json.lean): key = name part
+  -- of the tag, an entry with `omitempty` is left out when its value is empty (here: "zero"; struct- and array-typed
+  -- fields are never empty)
+  let st : St String := fun name => match targetOf t vis name with | some (_, i, _) => s!"arg{i}" | none => "?"
+  let omFn (tag : String) : Bool := omitEmpty tag &&
+    !(match ks.find? (fun k => k.key = tag) with | some k => structTyped k.name | none => false)
+  let docM := marshalO "zero" (fun v => v == "zero") tagName omFn ks st
+  let mline := sorted.filterMap (fun key => (docM.lookup key).map (fun v => key ++ "=" ++ v))
   let ls := leavesPtr [] false 0 t
   let uline := ls.map (fun l =>
     let p := pathKey l.1 l.2.2.1.name
